@@ -220,6 +220,49 @@ type c17Person struct {
 	burial  string
 	resiPl  string
 	role    map[string]bool
+	shapes  []c17ExtraShape // where the person has further places (fixed: the structure of the record)
+	extras  []c17Extra      // their dates and places (private strings)
+}
+
+// a further DATE/PLAC pair of a person, at one of the positions where Document.Places() finds a
+// place: below any event tag, below an attribute, below a custom tag, one or two levels deeper, or
+// directly below the INDI record.
+type c17ExtraShape struct {
+	tag, value string
+	nest       []string // tags between the level-1 node and the PLAC ("ADDR", "_X", …)
+	hasDate    bool
+}
+
+type c17Extra struct{ date, place string }
+
+var (
+	// event tags (Tag.IsEvent) that do not change the living test (no BIRT/BAPM/BAPL/CHR/DEAT)
+	c17EventTags = []string{"ADOP", "BARM", "BASM", "BLES", "BURI", "CENS", "CHRA", "CONF", "CREM", "EMIG", "EVEN", "FCOM", "GRAD",
+		"IMMI", "NATU", "ORDN", "PROB", "RESI", "RETI", "WILL", "ENDL", "SLGC"}
+	// individual attributes: the same DATE/PLAC detail, but not events
+	c17AttrTags   = []string{"OCCU", "EDUC", "RELI", "TITL", "PROP", "NATI", "CAST", "DSCR", "IDNO", "SSN", "NCHI", "NMR", "FACT"}
+	c17CustomTags = []string{"_MILT", "_DEG", "_CUSTOM", "ZZZ"}
+	c17NestTags   = [][]string{nil, nil, nil, {"ADDR"}, {"_DETAIL"}, {"ADDR", "_SUB"}, {"NOTE"}}
+)
+
+func c17Shapes(r *Rand) []c17ExtraShape {
+	var out []c17ExtraShape
+	for k := []int{0, 0, 1, 1, 2, 3}[r.Intn(6)]; k > 0; k-- {
+		sh := c17ExtraShape{hasDate: r.Chance(3, 4), nest: c17NestTags[r.Intn(len(c17NestTags))]}
+		switch r.Intn(7) {
+		case 0, 1:
+			sh.tag = r.Pick(c17EventTags)
+		case 2, 3, 4:
+			sh.tag, sh.value = r.Pick(c17AttrTags), r.Pick([]string{"", "value", "7"})
+		case 5:
+			sh.tag, sh.value = r.Pick(c17CustomTags), r.Pick([]string{"", "x"})
+		default:
+			sh.tag = "" // the PLAC directly below the INDI record
+			sh.nest, sh.hasDate = nil, false
+		}
+		out = append(out, sh)
+	}
+	return out
 }
 
 type c17Family struct {
@@ -312,6 +355,10 @@ func c17private(r *Rand, p *c17Person, now int, gen int) {
 	if r.Chance(1, 4) {
 		p.resiPl = place()
 	}
+	p.extras = nil
+	for range p.shapes {
+		p.extras = append(p.extras, c17Extra{date: c17date(r, 1900, now-1), place: c17tok(r, "pl"+tag, i) + ", " + r.Pick([]string{"Australia", "Oz"})})
+	}
 }
 
 func c17Gen(r *Rand, now int) *c17Doc {
@@ -320,6 +367,7 @@ func c17Gen(r *Rand, now int) *c17Doc {
 	for i := 0; i < n; i++ {
 		p := &c17Person{id: i, kind: r.Pick(c17Kinds), sex: r.Pick([]string{"M", "F", "", "U"}), role: map[string]bool{}}
 		p.living = strings.HasPrefix(p.kind, "living")
+		p.shapes = c17Shapes(r)
 		c17private(r, p, now, 0)
 		d.people = append(d.people, p)
 	}
@@ -439,6 +487,7 @@ func c17Variant(r *Rand, d *c17Doc, now int) *c17Doc {
 			pl := func() string { return c17tok(r, "ply", p.id) + ", Oz" }
 			q.birthPl = keep(p.birthPl, f.birthPl, pl())
 			q.resiPl = keep(p.resiPl, f.resiPl, pl())
+			q.extras = f.extras // same positions (shapes), other dates and places
 		}
 		v.people = append(v.people, &q)
 	}
@@ -496,6 +545,28 @@ func (d *c17Doc) Text() string {
 		if p.resiPl != "" {
 			w("1 RESI")
 			w("2 PLAC %s", p.resiPl)
+		}
+		for k, sh := range p.shapes {
+			if k >= len(p.extras) {
+				break
+			}
+			level := 1
+			if sh.tag != "" {
+				if sh.value != "" {
+					w("1 %s %s", sh.tag, sh.value)
+				} else {
+					w("1 %s", sh.tag)
+				}
+				level = 2
+				if sh.hasDate {
+					w("2 DATE %s", p.extras[k].date)
+				}
+				for _, nt := range sh.nest {
+					w("%d %s", level, nt)
+					level++
+				}
+			}
+			w("%d PLAC %s", level, p.extras[k].place)
 		}
 		for fi, f := range d.fams {
 			for _, c := range f.chil {
@@ -720,6 +791,29 @@ func init() {
 					c.Nontrivial(p.kind + "/" + role + "/" + gs)
 				}
 				c.Count("kind=" + p.kind)
+				for _, sh := range p.shapes {
+					pos := "directly below INDI"
+					switch {
+					case sh.tag == "":
+					case strings.HasPrefix(sh.tag, "_") || sh.tag == "ZZZ":
+						pos = "custom tag"
+					case func() bool {
+						for _, t := range c17AttrTags {
+							if t == sh.tag {
+								return true
+							}
+						}
+						return false
+					}():
+						pos = "attribute"
+					default:
+						pos = "event"
+					}
+					if len(sh.nest) > 0 {
+						pos += fmt.Sprintf(", %d level(s) deeper", len(sh.nest))
+					}
+					c.Count("place of a " + map[bool]string{true: "living", false: "dead"}[p.living] + " person: " + pos)
+				}
 			}
 			c.Count("groups=" + gs)
 			c.Count(fmt.Sprintf("jobs=%d", sr.jobs))
@@ -922,6 +1016,31 @@ func init() {
 					}
 					if !listed {
 						c.Oracle("", mode.vis+" mode: a person who is not living is missing from the individual list pages", in, "not listed", "listed")
+					}
+					// every place of the person — below events, attributes, custom tags, nested deeper, directly
+					// below the record — has its page, and the row there names the person
+					if sr.groups[1] {
+						for k, ex := range p.extras {
+							ptok := strings.ToLower(strings.SplitN(ex.place, ",", 2)[0])
+							found, named := false, false
+							for name, content := range mode.site.Files {
+								if strings.HasPrefix(strings.ToLower(name), ptok) {
+									found = true
+									named = strings.Contains(strings.ToLower(content), tok)
+								}
+							}
+							pos := p.shapes[k].tag
+							if pos == "" {
+								pos = "INDI"
+							}
+							pos += "/" + strings.Join(append(append([]string{}, p.shapes[k].nest...), "PLAC"), "/")
+							pin := input(map[string]interface{}{"living": mode.vis, "person": p.ptr(), "name": p.given + " " + p.surname, "place": ex.place, "place_position": pos})
+							if !found {
+								c.Oracle("", mode.vis+" mode: a place of a person who is not living has no page", pin, ex.place+" ("+pos+")", "a place page")
+							} else if !named {
+								c.Oracle("", mode.vis+" mode: the place page of a person who is not living does not name the person", pin, ex.place+" ("+pos+")", "a row with the person")
+							}
+						}
 					}
 					if sr.groups[3] && !strings.Contains(mode.site.Files["surnames.html"], p.surname) {
 						c.Oracle("", mode.vis+" mode: the surname of a person who is not living is missing from the surname list", in, "not listed", "listed")
